@@ -257,11 +257,17 @@ class Typer:
             if is_top(cur):
                 self.param_override[(where, prm)] = v
                 learnt = True
+            elif cur == FUNC and "none" in v:
+                # a callback parameter that the package's own call sites may pass as None
+                self.param_override[(where, prm)] = FUNC | NONE
+                learnt = True
         return learnt
 
     def run_interprocedural(self, rounds=6):
         self.run(rounds)
-        if self.infer_private_params():
+        for _ in range(4):
+            if not self.infer_private_params():
+                break
             self.summ, self.results, self.field_cache = {}, {}, {}
             self.run(rounds)
         return self
@@ -1073,7 +1079,8 @@ class Typer:
         name = norm(f)
         # callback parameters / fields (opaque user code)
         cbname = f.id if isinstance(f, ast.Name) else (f.attr if isinstance(f, ast.Attribute) else None)
-        if cbname in T.CALLBACKS and not any(isinstance(a, tuple) and a[0] in ("gfunc", "meth", "class", "nodemeth") for a in (fv or ())):
+        known = [a for a in (fv or ()) if isinstance(a, tuple) and a[0] in ("gfunc", "meth", "class", "nodemeth")]
+        if cbname in T.CALLBACKS and (not known or (fv is not None and any(not (isinstance(a, tuple) and a[0] in ("gfunc", "meth", "class", "nodemeth")) and a != "none" for a in fv))):
             typ = TOP
             if cbname in T.CALLBACKS_SEQ_PRESERVING:
                 a0 = self._arg(argv, 0)
